@@ -51,7 +51,7 @@ pub fn queue_len(w: &WorkerProperties<u64, u64>) -> usize {
     w.message_queue.len()
 }
 
-pub struct Recorder(std::sync::Mutex<Vec<(String, u64)>>);
+pub struct Recorder(pub std::sync::Mutex<Vec<(String, u64)>>);
 impl DiscardHandler<u64, u64> for Recorder {
     fn discard(&self, reason: DiscardReason, job: &mut Job<u64, u64>) {
         self.0.lock().unwrap().push((format!("{reason:?}"), job.msg));
